@@ -9,11 +9,15 @@
   source, agree with the grammar's table and with each other; the byte-exact model of the reader
   maps every grammar escape to the code point the grammar assigns; the reference reader and the
   model of the library's reader agree on the scalar sentences below (exhaustive for the finite kinds).
+  The write direction is proved for the model (second half of this file): `C04_write_holds` — the reference
+  reader reads `encode v` back as `specImage v` for every well-formed `v` with grammar decimals, at any
+  nesting depth (ladder `spec_str` … `spec_rows`; helper lemmas in `Hs/Lemmas/SpecRt*.lean`).
 -/
 import Hs.Spec.ZincRead
 import Hs.Model.ZincEnc
 import Hs.Model.ZincParse
 import Hs.Gen.ZincEscapes
+import Hs.Lemmas.SpecRtTop
 namespace Hs.C04
 open Hs Hs.Zinc
 
@@ -66,7 +70,8 @@ theorem control_chars_round_trip :
 
 /-- The property's write direction, full strength: the reference reader reads the library's text
 for `v` as (the lexical image of) `v`.  `SameLex` compares modulo the lexical representation of
-numbers.  Stated; decided on the implementation on every run (requests `C04 read`). -/
+numbers.  Stated here; proved for the model as `C04_write_wf` below; decided on the implementation on every run
+(requests `C04 read`). -/
 def C04_write (WF : Val → Prop) (SameLex : Val → Val → Prop) : Prop :=
   ∀ v, WF v → ∃ v', Hs.Spec.read (encode v) = some v' ∧ SameLex v v'
 
@@ -79,5 +84,402 @@ theorem literals_conform :
             | .bool x, .bool y => x == y && (match v with | .bool z => x == z | _ => false)
             | _, _ => true)
        | _, _ => false)) = true := by decide +kernel
+
+
+/-! ## The write direction for the model: a proof
+
+Helper lemmas live in `Hs/Lemmas/SpecRt*.lean`.  Parsers of the reference reader are plain functions
+`In → Option (α × In)` that consume a prefix, so every framing lemma reads `p (text ++ rest) = some (x, rest)`.
+Vocabulary (shared with C01, `Hs/Lemmas/ZincRt*.lean`): `Delim rest` — what follows a value in writer output:
+nothing, `,` `]` `}` newline, or a space followed by the lower-case first letter of a tag name; `wfV` — the decidable
+well-formedness predicate of C01 (`Hs/Lemmas/ZincRtWf.lean`).
+-/
+
+/-- the image of a finite number: what the reference reader returns for the printed text -/
+def specNum (n : Num) : Num :=
+  if Flt.isNaNBits n.v.bits then { v := { bits := nanBits, txt := "NaN".toList }, unit := none }
+  else if Flt.isInfBits n.v.bits then
+    (if Flt.signBit n.v.bits then { v := { bits := negInfBits, txt := "-inf".toList }, unit := none }
+     else { v := { bits := posInfBits, txt := "inf".toList }, unit := none })
+  else { v := { bits := Hs.Spec.specBits, txt := n.v.txt }, unit := n.unit }
+
+mutual
+/-- what the reference reader returns for the writer's text of a value: every string, name, tag, cell, row and
+nesting identical; numbers and coordinates as the decimal text the writer printed (`Flt.bits = specBits`: "the
+double this text denotes"); timestamps as their token text; dates and times as fields -/
+def specImage : Val → Val
+  | .num n => .num (specNum n)
+  | .coord a b => .coord { bits := Hs.Spec.specBits, txt := a.txt } { bits := Hs.Spec.specBits, txt := b.txt }
+  | .dateTime t =>
+    .dateTime { secs := 0, ns := 0, off := 0, zone := [], tzid := [],
+                txt := if t.tzid == "UTC".toList then t.txt else t.txt ++ [' '] ++ t.zone }
+  | .list xs => .list (specVals xs)
+  | .dict d => .dict (specTags d)
+  | .grid md cols rows ver => .grid (specOTags md) (specCols cols) (specRows rows) ver
+  | v => v
+def specVals : Vals → Vals
+  | .nil => .nil
+  | .cons v vs => .cons (specImage v) (specVals vs)
+def specTags : Tags → Tags
+  | .nil => .nil
+  | .cons k v t => .cons k (specImage v) (specTags t)
+def specOTags : OTags → OTags
+  | .none => .none
+  | .some t => .some (specTags t)
+def specCols : Cols → Cols
+  | .nil => .nil
+  | .cons n m c => .cons n (specOTags m) (specCols c)
+def specRows : Rows → Rows
+  | .nil => .nil
+  | .cons r rs => .cons (specTags r) (specRows rs)
+end
+
+/-! ### `specImage` is the function the lemma files use -/
+
+mutual
+theorem specImage_eq : ∀ v : Val, specImage v = Hs.Spec.specImg v
+  | .num n => by simp [specImage, Hs.Spec.specImg, specNum, Hs.Spec.specNumI]
+  | .coord a b => by simp [specImage, Hs.Spec.specImg]
+  | .dateTime t => by simp [specImage, Hs.Spec.specImg]
+  | .list xs => by simp [specImage, Hs.Spec.specImg, specVals_eq xs]
+  | .dict d => by simp [specImage, Hs.Spec.specImg, specTags_eq d]
+  | .grid md cols rows ver => by
+    simp [specImage, Hs.Spec.specImg, specOTags_eq md, specCols_eq cols, specRows_eq rows]
+  | .null => by simp [specImage, Hs.Spec.specImg]
+  | .remove => by simp [specImage, Hs.Spec.specImg]
+  | .marker => by simp [specImage, Hs.Spec.specImg]
+  | .bool _ => by simp [specImage, Hs.Spec.specImg]
+  | .na => by simp [specImage, Hs.Spec.specImg]
+  | .str _ => by simp [specImage, Hs.Spec.specImg]
+  | .uri _ => by simp [specImage, Hs.Spec.specImg]
+  | .ref _ _ => by simp [specImage, Hs.Spec.specImg]
+  | .sym _ => by simp [specImage, Hs.Spec.specImg]
+  | .date _ => by simp [specImage, Hs.Spec.specImg]
+  | .time _ => by simp [specImage, Hs.Spec.specImg]
+  | .xstr _ _ => by simp [specImage, Hs.Spec.specImg]
+theorem specVals_eq : ∀ xs : Vals, specVals xs = Hs.Spec.specImgs xs
+  | .nil => rfl
+  | .cons v vs => by simp [specVals, Hs.Spec.specImgs, specImage_eq v, specVals_eq vs]
+theorem specTags_eq : ∀ t : Tags, specTags t = Hs.Spec.specImgT t
+  | .nil => rfl
+  | .cons k v t => by simp [specTags, Hs.Spec.specImgT, specImage_eq v, specTags_eq t]
+theorem specOTags_eq : ∀ o : OTags, specOTags o = Hs.Spec.specImgO o
+  | .none => rfl
+  | .some t => by simp [specOTags, Hs.Spec.specImgO, specTags_eq t]
+theorem specCols_eq : ∀ c : Cols, specCols c = Hs.Spec.specImgC c
+  | .nil => rfl
+  | .cons n m c => by simp [specCols, Hs.Spec.specImgC, specOTags_eq m, specCols_eq c]
+theorem specRows_eq : ∀ r : Rows, specRows r = Hs.Spec.specImgR r
+  | .nil => rfl
+  | .cons r rs => by simp [specRows, Hs.Spec.specImgR, specTags_eq r, specRows_eq rs]
+end
+
+/-! ### rung 1 — Str, Uri: every payload, any following input -/
+
+/-- **spec_str**: every `s : List Char` (controls, quotes, backslash, `$`, astral planes), whatever follows -/
+theorem spec_str (s : List Char) (rest : List UInt8) : Hs.Spec.str (encQuoted s ++ rest) = some (s, rest) :=
+  Hs.Spec.spec_str s rest
+
+/-- **spec_uri**: every text: the writer escapes `` ` ``, `\` and control characters; the grammar's reader undoes
+exactly these -/
+theorem spec_uri (s : List Char) (rest : List UInt8) : Hs.Spec.uri (encUri s ++ rest) = some (s, rest) :=
+  Hs.Spec.spec_uri s rest
+
+/-! ### rung 2 — Ref, Symbol, XStr, the literal kinds (through `scalar`, any fuel ≥ 1) -/
+
+theorem spec_ref_nodis (f : Nat) (id : List Char) (hid : isRefId id = true) (rest : List UInt8) (hend : RefEnd rest) :
+    Hs.Spec.scalar (f + 1) (64 :: encChars id ++ rest) = some (.ref id none, rest) :=
+  Hs.Spec.scalar_ref_nodis f id hid rest hend
+
+theorem spec_ref_dis (f : Nat) (id : List Char) (hid : isRefId id = true) (dis : List Char) (rest : List UInt8) :
+    Hs.Spec.scalar (f + 1) (64 :: encChars id ++ 32 :: encQuoted dis ++ rest) = some (.ref id (some dis), rest) :=
+  Hs.Spec.scalar_ref_dis f id hid dis rest
+
+theorem spec_symbol (f : Nat) (s : List Char) (hs : isSymBody s = true) (rest : List UInt8) (hst : Stop isRefB rest) :
+    Hs.Spec.scalar (f + 1) (94 :: encChars s ++ rest) = some (.sym s, rest) :=
+  Hs.Spec.scalar_sym f s hs rest hst
+
+theorem spec_xstr (f : Nat) (ty : List Char) (hty : isXStrType ty = true) (v : List Char) (rest : List UInt8) :
+    Hs.Spec.scalar (f + 1) (enc (.xstr ty v) true ++ rest) = some (.xstr ty v, rest) :=
+  Hs.Spec.scalar_xstr f ty hty v rest
+
+/-- the literal kinds `N M R T F NA`, after any delimiter -/
+theorem spec_literals (f : Nat) (rest : List UInt8) (hd : Delim rest) :
+    Hs.Spec.scalar (f + 1) (enc .null true ++ rest) = some (.null, rest) ∧
+    Hs.Spec.scalar (f + 1) (enc .marker true ++ rest) = some (.marker, rest) ∧
+    Hs.Spec.scalar (f + 1) (enc .remove true ++ rest) = some (.remove, rest) ∧
+    Hs.Spec.scalar (f + 1) (enc .na true ++ rest) = some (.na, rest) ∧
+    Hs.Spec.scalar (f + 1) (enc (.bool true) true ++ rest) = some (.bool true, rest) ∧
+    Hs.Spec.scalar (f + 1) (enc (.bool false) true ++ rest) = some (.bool false, rest) := by
+  simp only [enc]
+  exact ⟨Hs.Spec.scalar_null f rest hd.kwEnd, Hs.Spec.scalar_marker f rest hd.kwEnd,
+    Hs.Spec.scalar_remove f rest hd.kwEnd, Hs.Spec.scalar_na f rest hd.kwEnd,
+    Hs.Spec.scalar_true f rest hd.kwEnd, Hs.Spec.scalar_false f rest hd.kwEnd⟩
+
+/-! ### rung 3 — numbers, coordinates; rung 4 — dates, times, timestamps -/
+
+/-- **spec_decimal**: the grammar's decimal `["-"] digits ["." digits]` (`strictDec`), followed by anything that
+does not continue it (`Stop isDecCont`: not a digit, `_`, `.`; with exponents allowed: not an exponent) -/
+theorem spec_decimal (allowExp : Bool) (tb : List UInt8) (h : Hs.Spec.strictDec tb = true) (rest : List UInt8)
+    (hst : Stop Hs.Spec.isDecCont rest) (hexp : allowExp = true → Hs.Spec.NoExp rest) :
+    Hs.Spec.decimal allowExp (tb ++ rest) = some (tb, rest) :=
+  Hs.Spec.decimal_rt allowExp tb h rest hst hexp
+
+/-- **spec_number**: finite number = strict decimal text + optional symbol of the unit table + delimiter;
+the text is not taken for a date or a time, a unit starting with `e`/`E` is not taken for an exponent -/
+theorem spec_number (f : Nat) (tb : List UInt8) (hs : Hs.Spec.strictDec tb = true) (uo : Option (List Char))
+    (hu : unitOk uo = true) (rest : List UInt8) (hd : Delim rest) :
+    Hs.Spec.scalar (f + 1) (tb ++ (unitBytes uo ++ rest)) =
+      some (.num { v := { bits := Hs.Spec.specBits, txt := Hs.Spec.chars tb }, unit := uo }, rest) :=
+  Hs.Spec.scalar_num_finite f tb hs uo hu rest hd
+
+theorem spec_coord (f : Nat) (la lo : List UInt8) (hla : Hs.Spec.strictDec la = true)
+    (hlo : Hs.Spec.strictDec lo = true) (rest : List UInt8) :
+    Hs.Spec.scalar (f + 1) (67 :: 40 :: (la ++ 44 :: (lo ++ 41 :: rest))) =
+      some (.coord { bits := Hs.Spec.specBits, txt := Hs.Spec.chars la }
+                   { bits := Hs.Spec.specBits, txt := Hs.Spec.chars lo }, rest) :=
+  Hs.Spec.scalar_coord f la lo hla hlo rest
+
+theorem spec_date (f : Nat) (d : Date) (hok : dateOk d = true) (rest : List UInt8) (hd : Delim rest) :
+    Hs.Spec.scalar (f + 1) (encChars d.txt ++ rest) = some (.date d, rest) :=
+  Hs.Spec.scalar_date f d hok rest hd
+
+theorem spec_time (f : Nat) (t : Time) (hok : timeOk t = true) (rest : List UInt8) (hd : Delim rest) :
+    Hs.Spec.scalar (f + 1) (encChars t.txt ++ rest) = some (.time t, rest) :=
+  Hs.Spec.scalar_time f t hok rest hd
+
+/-- **spec_datetime**: date `T` time [fraction] `Z` | `Z Name` | `±hh:mm Name` comes back as its token text -/
+theorem spec_datetime (f : Nat) (t : DateTime) (hok : dtOk t = true) (rest : List UInt8) (hd : Delim rest) :
+    Hs.Spec.scalar (f + 1) (encDateTime t ++ rest) = some (specImage (.dateTime t), rest) := by
+  rw [Hs.Spec.scalar_datetime f t hok rest hd]
+  simp [specImage, dtVal, dtText]
+
+/-! ### rung 5 — composites by mutual induction on `Val`
+
+`Hs.Spec.Rd v`: the text of `v` starts with a byte of the value alphabet and, for every `rest` with `Delim rest`
+and every `fuel ≥ |enc v| + 2`, `value fuel (enc v true ++ rest) = some (specImg v, rest)`.  The linear fuel
+bound is related to the reader's own `4·|text| + 16` in `Hs.Spec.read_of_Rd` / `read_grid`. -/
+
+/-- **spec_value**: every well-formed value with grammar decimals, nested anywhere (list element, tag value, cell):
+`value` reads its text back and leaves what follows -/
+theorem spec_value (v : Val) (hwf : wfV v = true) (hs : Hs.Spec.strictV v = true) (fuel : Nat) (rest : List UInt8)
+    (hd : Delim rest) (hf : (enc v true).length + 2 ≤ fuel) :
+    Hs.Spec.value fuel (enc v true ++ rest) = some (specImage v, rest) := by
+  rw [specImage_eq]
+  exact (Hs.Spec.rdV v hwf hs).2 fuel rest hd hf
+
+/-- **spec_list_items**: the elements of a non-empty list up to and including `]` -/
+theorem spec_list_items (v : Val) (vs : Vals) (hwf : wfVs (.cons v vs) = true) (hs : Hs.Spec.strictVs (.cons v vs) = true)
+    (fuel : Nat) (rest : List UInt8) (acc : List Val) (hf : (encVals (.cons v vs)).length + 3 ≤ fuel) :
+    Hs.Spec.listItems fuel (encVals (.cons v vs) ++ 93 :: rest) acc =
+      some (.list (Vals.ofList (acc ++ (specVals (.cons v vs)).toList)), rest) := by
+  rw [specVals_eq]
+  exact Hs.Spec.listItems_rt v vs (Hs.Spec.rdVs _ hwf hs) fuel rest acc hf
+
+/-- **spec_tags**: the tags of a dict (`,`-separated, up to `}`) -/
+theorem spec_tags (k : List Char) (v : Val) (t : Tags) (hk : keysIdent (.cons k v t) = true)
+    (hwf : wfT (.cons k v t) = true) (hs : Hs.Spec.strictT (.cons k v t) = true)
+    (fuel : Nat) (rest : List UInt8) (acc : List (List Char × Val))
+    (hf : (encTags (.cons k v t) 44).length + 3 ≤ fuel) :
+    Hs.Spec.tags fuel (encTags (.cons k v t) 44 ++ 125 :: rest) true acc =
+      some (acc ++ (specTags (.cons k v t)).toList, 125 :: rest) := by
+  rw [specTags_eq]
+  exact Hs.Spec.tags_rt Hs.Spec.ctx_dict k v t hk (Hs.Spec.rdT _ hwf hs) fuel rest acc hf
+
+/-- **spec_meta_tags**: grid meta / column meta (space-separated, up to the newline) -/
+theorem spec_meta_tags (k : List Char) (v : Val) (t : Tags) (hk : keysIdent (.cons k v t) = true)
+    (hwf : wfT (.cons k v t) = true) (hs : Hs.Spec.strictT (.cons k v t) = true)
+    (fuel : Nat) (rest : List UInt8) (acc : List (List Char × Val))
+    (hf : (encTags (.cons k v t) 32).length + 3 ≤ fuel) :
+    Hs.Spec.tags fuel (encTags (.cons k v t) 32 ++ 10 :: rest) false acc =
+      some (acc ++ (specTags (.cons k v t)).toList, 10 :: rest) := by
+  rw [specTags_eq]
+  exact Hs.Spec.tags_rt Hs.Spec.ctx_meta k v t hk (Hs.Spec.rdT _ hwf hs) fuel rest acc hf
+
+/-- **spec_cols**: the column line (names, metas on the first, middle and last column) including its newline -/
+theorem spec_cols (n : List Char) (md : OTags) (c : Cols) (hshape : colsShapeAux (.cons n md c) = true)
+    (hwf : wfC (.cons n md c) = true) (hs : Hs.Spec.strictC (.cons n md c) = true)
+    (fuel : Nat) (rest : List UInt8) (acc : List (List Char × OTags)) (hf : colsLen (.cons n md c) + 3 ≤ fuel) :
+    Hs.Spec.cols fuel (encCols (.cons n md c) ++ 10 :: rest) acc =
+      some (acc ++ (specCols (.cons n md c)).toList, rest) := by
+  rw [specCols_eq]
+  exact Hs.Spec.cols_rt n md c (Hs.Spec.colsOkS_of_shape _ hshape) (Hs.Spec.rdC _ hwf hs) fuel rest acc hf
+
+/-- **spec_cells**: one row line (present, Null and missing cells) including its newline -/
+theorem spec_cells (r : Tags) (names : List (List Char)) (single : Bool) (hne : names ≠ [])
+    (hshape : rowShape names single r = true) (hwf : wfT r = true) (hs : Hs.Spec.strictT r = true)
+    (fuel : Nat) (rest : List UInt8) (acc : List (List Char × Val)) (hf : (rowBytes r names single).length + 3 ≤ fuel) :
+    Hs.Spec.cells fuel (rowBytes r names single ++ 10 :: rest) names acc =
+      some (acc ++ Hs.Spec.cellsOfS r names, rest) :=
+  Hs.Spec.cells_rt r single names hne (Hs.Spec.rowOkS_of_shape names single r hshape (Hs.Spec.rdT r hwf hs)).cells
+    fuel rest acc hf
+
+/-- **spec_rows**: all rows up to the grid's end (`>>` nested, the blank line at top level); each row dict is
+rebuilt from the cells in column order -/
+theorem spec_rows (names : List (List Char)) (single nested : Bool) (rest : List UInt8) (hne : names ≠ [])
+    (hsingle : names.length = 1 → single = true) (hnd : names.Nodup) (rws : Rows)
+    (hshape : rowsShape names single rws = true) (hwf : wfR rws = true) (hs : Hs.Spec.strictR rws = true)
+    (fuel : Nat) (acc : List Tags) (hf : (encRows rws names single).length + 3 ≤ fuel) :
+    Hs.Spec.rows fuel (encRows rws names single ++ tailR nested rest) names acc =
+      some (acc ++ (specRows rws).toList, Hs.Spec.afterRows nested rest) := by
+  rw [specRows_eq]
+  exact Hs.Spec.rows_rt names single nested rest hne hsingle hnd rws
+    (Hs.Spec.rowsOkS_of_shape names single rws hshape (Hs.Spec.rdR rws hwf hs)) fuel acc hf
+
+/-! ### the property for the model -/
+
+/-- **C04, write direction, for the model**: for every value that is well-formed in the sense of C01 (`wfV`: identifier
+names, id alphabets, capitalised XStr types other than `C`, database units, unit-less non-finite numbers, valid
+calendar fields and resolvable zones, grids with `ver` 3.0, at least one column, distinct identifier column names,
+meta absent or non-empty, row keys among the column names, no missing cell in a single-column grid) and whose
+finite numbers and coordinates print as the grammar's decimal `-?d+(.d+)?` (`strictV`; Rust's `Display for f64`
+prints exactly this shape, `wfV` alone also allows `5.` and `.5`), **at any nesting depth**, the reference reader
+written from the grammar reads the writer's text back as the image of the value.
+
+Numbers, coordinates and timestamps are compared lexically (`specImage`): `parse (fmt x) = x` for `f64` and chrono's
+text round trip are trusted-base assumptions validated by the harness on every run. -/
+theorem C04_write_holds (v : Val) (hwf : wfV v = true) (hs : Hs.Spec.strictV v = true) :
+    Hs.Spec.read (encode v) = some (specImage v) := by
+  rw [specImage_eq]
+  exact Hs.Spec.read_of_wf v hwf hs
+
+/-- the stated property `C04_write`, for the explicit decidable predicates -/
+theorem C04_write_wf :
+    C04_write (fun v => wfV v = true ∧ Hs.Spec.strictV v = true) (fun v v' => v' = specImage v) :=
+  fun v h => ⟨specImage v, C04_write_holds v h.1 h.2, rfl⟩
+
+/-! ### the hypotheses cannot be dropped; the nesting bound of C01 is not needed -/
+
+def optIs (r : Option Val) (p : Val → Bool) : Bool :=
+  match r with
+  | some v => p v
+  | none => false
+
+/-- `wfV` allows the decimal text `5.` (accepted by `f64::from_str`); the grammar requires a digit after the point -/
+theorem C04_cex_strict_num :
+    wfV (.num ⟨⟨0, ['5', '.']⟩, none⟩) = true ∧ (Hs.Spec.read (encode (.num ⟨⟨0, ['5', '.']⟩, none⟩))).isSome = false := by
+  decide +kernel
+/-- … and a digit before it -/
+theorem C04_cex_strict_coord :
+    wfV (.coord ⟨0, ['.', '5']⟩ ⟨0, ['1']⟩) = true ∧
+      (Hs.Spec.read (encode (.coord ⟨0, ['.', '5']⟩ ⟨0, ['1']⟩))).isSome = false := by
+  decide +kernel
+
+/-- the writer always prints `ver:"3.0"`: another version string does not come back -/
+theorem C04_cex_ver :
+    optIs (Hs.Spec.read (encode (.grid .none (.cons ['a'] .none .nil) .nil ['2', '.', '0'])))
+      (fun v => match v with | .grid _ _ _ ver => ver == ['3', '.', '0'] | _ => false) = true := by decide +kernel
+
+/-- known finding Z4: in a single-column grid a missing cell is written `N` and comes back as a Null cell -/
+theorem C04_cex_single_missing :
+    optIs (Hs.Spec.read (encode (.grid .none (.cons ['a'] .none .nil) (.cons .nil .nil) ['3', '.', '0'])))
+      (fun v => match v with | .grid _ _ (.cons (.cons _ .null .nil) .nil) _ => true | _ => false) = true := by
+  decide +kernel
+
+/-- a grid without columns is written `empty`, which the grammar reads as a column named `empty` -/
+theorem C04_cex_no_cols :
+    optIs (Hs.Spec.read (encode (.grid .none .nil .nil ['3', '.', '0'])))
+      (fun v => match v with | .grid _ (.cons _ _ .nil) _ _ => true | _ => false) = true := by decide +kernel
+
+def deepList : Nat → Val
+  | 0 => .list .nil
+  | n + 1 => .list (.cons (deepList n) .nil)
+
+/-- the reference reader has no nesting limit: 64 levels (which libhaystack's own reader refuses, see
+`Hs.C01.C01_cex_depth`) are read back; the writer's text is a sentence of the grammar at any depth -/
+theorem deep64_ok : Hs.Spec.read (encode (deepList 64)) = some (specImage (deepList 64)) :=
+  C04_write_holds _ (by decide +kernel) (by decide +kernel)
+
+/-! ### the hypotheses are satisfiable: concrete non-trivial inputs -/
+
+section examples
+
+/-- Str: controls, quote, backslash, `$`, BMP and astral characters -/
+example : Hs.Spec.str (encQuoted "a\t\"\\$\x01é€😀".toList ++ [44, 49]) = some ("a\t\"\\$\x01é€😀".toList, [44, 49]) :=
+  spec_str _ _
+/-- Uri with a control character, a backquote, a backslash and non-ASCII text -/
+example : Hs.Spec.uri (encUri "http://x/`a\\b\n é😀".toList ++ [93]) = some ("http://x/`a\\b\n é😀".toList, [93]) :=
+  spec_uri _ _
+
+example : isRefId "p:demo:r:2a.b-c~d_E".toList = true := by decide
+/-- a Ref followed by a space and a tag name (grid meta): `RefEnd` -/
+example : RefEnd [32, 97, 58] := Or.inr (Or.inr ⟨97, [58], rfl, by decide⟩)
+example : Hs.Spec.scalar 1 (64 :: encChars "a-1".toList ++ [32, 97, 58]) = some (.ref "a-1".toList none, [32, 97, 58]) :=
+  spec_ref_nodis 0 _ (by decide) _ (Or.inr (Or.inr ⟨97, [58], rfl, by decide⟩))
+example : isSymBody "lib:ph.a-b".toList = true := by decide
+example : Stop isRefB [44] := Stop_cons (by decide)
+example : isXStrType "Bin".toList = true := by decide
+example : Delim [32, 100, 105, 115] := Or.inr (Or.inr ⟨100, [105, 115], rfl, by decide⟩)
+example : Delim [10, 62, 62] := Or.inr (Or.inl ⟨10, [62, 62], rfl, by decide⟩)
+
+/-- decimals: negative fraction, integer; what may follow: a unit starting with `E` is not an exponent -/
+example : Hs.Spec.strictDec [45, 49, 50, 46, 53] = true := by decide
+example : Hs.Spec.strictDec [49, 48, 48] = true ∧ Stop Hs.Spec.isDecCont [69, 69, 82] ∧ Hs.Spec.NoExp [69, 69, 82] :=
+  ⟨by decide, Stop_cons (by decide), by
+    intro e r he _ c r' hr
+    cases he; cases hr; decide⟩
+example : unitOk (some "°F".toList) = true ∧ unitOk (some "EER".toList) = true ∧ unitOk (some "kW/m²".toList) = true := by
+  decide +kernel
+/-- `100EER,` : number 100 with unit EER -/
+example : Hs.Spec.scalar 1 ([49, 48, 48] ++ (unitBytes (some "EER".toList) ++ [44])) =
+    some (.num ⟨⟨Hs.Spec.specBits, "100".toList⟩, some "EER".toList⟩, [44]) :=
+  spec_number 0 _ (by decide) _ (by decide +kernel) _ (Or.inr (Or.inl ⟨44, [], rfl, by simp⟩))
+
+example : dateOk ⟨2024, 2, 29, "2024-02-29".toList⟩ = true := by decide +kernel
+example : timeOk ⟨1, 2, 3, 500000000, "01:02:03.500".toList⟩ = true := by decide +kernel
+/-- a leap second -/
+example : timeOk ⟨23, 59, 59, 1000000000, "23:59:60".toList⟩ = true := by decide +kernel
+/-- timestamps: UTC, an offset zone with a fraction, a zone with offset zero, an `Etc/GMT-3` style name -/
+example : dtOk ⟨0, 0, 0, "UTC".toList, "UTC".toList, "2024-02-29T12:34:56Z".toList⟩ = true := by decide +kernel
+example : dtOk ⟨0, 0, -18000, "New_York".toList, "America/New_York".toList,
+    "2024-02-29T12:34:56.789-05:00".toList⟩ = true := by decide +kernel
+example : dtOk ⟨0, 0, 0, "London".toList, "Europe/London".toList, "2024-01-01T00:00:00Z".toList⟩ = true := by
+  decide +kernel
+example : dtOk ⟨0, 0, 10800, "GMT-3".toList, "Etc/GMT-3".toList, "2024-01-01T00:00:00.123456789+03:00".toList⟩ = true := by
+  decide +kernel
+
+def exNum : Val := .num ⟨⟨0, "21.5".toList⟩, some "°C".toList⟩
+def exRow1 : Tags := .cons "id".toList (.ref "a-1".toList (some "Room \"1\"".toList))
+  (.cons "temp".toList exNum (.cons "ts".toList (.date ⟨2024, 2, 29, "2024-02-29".toList⟩) .nil))
+def exRow2 : Tags := .cons "temp".toList .null (.cons "ts".toList
+  (.dateTime ⟨0, 0, -18000, "New_York".toList, "America/New_York".toList, "2024-02-29T12:34:56.789-05:00".toList⟩) .nil)
+def exRow3 : Tags := .nil
+def exInner : Val :=
+  .grid .none (.cons "id".toList .none (.cons "temp".toList .none (.cons "ts".toList .none .nil)))
+    (.cons exRow1 (.cons exRow2 (.cons exRow3 .nil))) "3.0".toList
+/-- a grid with meta (Marker, Str, Ref followed by the next tag), column meta on the first and the last
+column, a nested grid and a list of dicts in cells, Null and missing cells -/
+def exGrid : Val :=
+  .grid (.some (.cons "dis".toList (.str "Site é".toList) (.cons "hisRef".toList (.ref "h".toList none)
+      (.cons "m".toList .marker .nil))))
+    (.cons "a".toList (.some (.cons "dis".toList (.str "A".toList) (.cons "unitRef".toList (.ref "u".toList none) .nil)))
+      (.cons "b".toList .none (.cons "c".toList (.some (.cons "x".toList .marker .nil)) .nil)))
+    (.cons (.cons "a".toList exInner (.cons "c".toList
+        (.list (.cons (.dict (.cons "k".toList (.uri "http://x/`".toList) (.cons "t".toList
+          (.time ⟨1, 2, 3, 0, "01:02:03".toList⟩) .nil))) (.cons (.coord ⟨0, "-1.5".toList⟩ ⟨0, "3".toList⟩)
+          (.cons (.xstr "Bin".toList "a\"b".toList) (.cons (.sym "ph-lib".toList) .nil))))) .nil))
+      (.cons (.cons "b".toList .na .nil) (.cons .nil .nil)))
+    "3.0".toList
+def exZeroRows : Val := .grid .none (.cons "only".toList .none .nil) .nil "3.0".toList
+
+example : wfV exGrid = true ∧ Hs.Spec.strictV exGrid = true := by decide +kernel
+example : wfV exZeroRows = true ∧ Hs.Spec.strictV exZeroRows = true := by decide +kernel
+example : wfVs (.cons exNum (.cons exInner .nil)) = true ∧ Hs.Spec.strictVs (.cons exNum (.cons exInner .nil)) = true := by
+  decide +kernel
+example : keysIdent exRow1 = true ∧ wfT exRow1 = true ∧ Hs.Spec.strictT exRow1 = true := by decide +kernel
+example : rowShape ["id".toList, "temp".toList, "ts".toList] false exRow2 = true := by decide +kernel
+
+/-- the nested grid as a list element: `value` leaves the `]` -/
+example : Hs.Spec.value 400 (enc exInner true ++ [93]) = some (specImage exInner, [93]) :=
+  spec_value exInner (by decide +kernel) (by decide +kernel) 400 [93] (Or.inr (Or.inl ⟨93, [], rfl, by simp⟩))
+    (by decide +kernel)
+
+/-- the example grids through the reference reader, via `C04_write_holds` -/
+example : Hs.Spec.read (encode exGrid) = some (specImage exGrid) :=
+  C04_write_holds exGrid (by decide +kernel) (by decide +kernel)
+example : Hs.Spec.read (encode exZeroRows) = some (specImage exZeroRows) :=
+  C04_write_holds exZeroRows (by decide +kernel) (by decide +kernel)
+
+end examples
 
 end Hs.C04
